@@ -62,7 +62,15 @@ def main() -> int:
         scratch = Path(tempfile.mkdtemp(prefix=f"ropt-mut-{m['id']}-"))
         try:
             shutil.copytree(REPO / "src", scratch / "src")
-            if "patch" in m:
+            if "revert" in m:
+                diff = subprocess.run(["git", "-C", str(REPO), "diff", f"{m['revert']}^", m["revert"], "--", "src"],
+                                      capture_output=True, text=True).stdout
+                r = subprocess.run(["patch", "-R", "-p1", "-d", str(scratch)], input=diff, capture_output=True, text=True)
+                if r.returncode != 0:
+                    print(f"{m['id']}: REVERT DOES NOT APPLY\n{r.stdout}{r.stderr}")
+                    bad += 1
+                    continue
+            elif "patch" in m:
                 r = subprocess.run(["patch", "-p1", "-d", str(scratch), "-i", m["patch"]], capture_output=True, text=True)
                 if r.returncode != 0:
                     print(f"{m['id']}: PATCH DOES NOT APPLY\n{r.stdout}{r.stderr}")
